@@ -229,6 +229,15 @@ impl<'a> Gen<'a> {
     }
 
     pub fn any(&mut self, depth: u32) -> Expr {
+        if depth > 0 && self.r.chance(1, 40) {
+            // an operator applied to operands of ANY type (mostly a type error; the model mirrors the
+            // engine's verdict on the VALUES, so what matters is that nothing else changes: every
+            // operand is still evaluated once, in order, before the operator fails or succeeds)
+            let op = *self.r.pick(&["<", "<=", ">", ">=", "+", "-", "*", "&&", "||", "in", "beginWith", "|", "<<"]);
+            let a = self.any(depth - 1);
+            let b = self.any(depth - 1);
+            return bin(op, a, b);
+        }
         if depth > 0 && self.r.chance(1, 150) {
             // unusual sizes: a long list literal, or a value buried 20..40 levels deep
             let inner = self.any(depth - 1);
@@ -290,7 +299,7 @@ impl<'a> Gen<'a> {
             Ty::ListInt => Expr::List((0..self.r.usize(3)).map(|_| lit_i(self.r.range(0, 5))).collect()),
             Ty::ListBool => Expr::List((0..self.r.usize(3)).map(|_| lit_b(self.r.chance(1, 2))).collect()),
             Ty::Map => Expr::Map(vec![(lit_s("k"), lit_i(self.r.range(0, 9)))]),
-            Ty::None => rf(*self.r.pick(&["unbound_name", "sum", "mul", "unbound_name"])),
+            Ty::None => rf(*self.r.pick(&["unbound_name", "sum", "mul", "_", "unbound_name"])),
         }
     }
 
@@ -520,7 +529,7 @@ impl<'a> Gen<'a> {
             7 => {
                 // read: a variable, or a name that was never bound (also names under which a global function exists)
                 if self.r.chance(1, 4) {
-                    rf(*self.r.pick(&["sum", "mul", "never_bound"]))
+                    rf(*self.r.pick(&["sum", "mul", "never_bound", "_"]))
                 } else {
                     let n = self.r.pick(names).to_string();
                     rf(&n)
